@@ -200,6 +200,23 @@ func (m *Model) Features() []string {
 	return out
 }
 
+// HasNestedCollections tells whether some collection sits directly inside
+// another collection, or a named collection definition exists.
+func (m *Model) HasNestedCollections() bool {
+	found := false
+	for _, d := range m.Defs {
+		if d.Type.Kind == KArray || d.Type.Kind == KMap {
+			found = true
+		}
+	}
+	m.Walk(func(_ string, _ string, t *T) {
+		if (t.Kind == KArray || t.Kind == KMap) && t.Elem != nil && (t.Elem.Kind == KArray || t.Elem.Kind == KMap) {
+			found = true
+		}
+	})
+	return found
+}
+
 // Supports tells whether format f can express the (single, non recursive)
 // features of t as the renderers write them.
 func Supports(f Format, t T) bool {
